@@ -510,7 +510,7 @@ def _gen_electrum(ctx: Ctx, rng: _Rng) -> Any:
     registry = electrum.ELECTRUM_WORDLISTS
     lang = ch.pick(sorted(registry.language_files), "lang")
     wordlist = registry.wordlist(lang)
-    kind = ch.weighted([("standard", 23), ("segwit", 1)], "electrum.type")
+    kind = ch.weighted([("standard", 22), ("segwit", 1), ("2fa", 2), ("2fa_segwit", 1)], "electrum.type")
     form = ch.pick(["int", "bytes", "library-rng"], "ent.form")
     if form == "library-rng":
         given, start = None, None
@@ -521,6 +521,12 @@ def _gen_electrum(ctx: Ctx, rng: _Rng) -> Any:
             n = ch.pick([16, 20, 32], "ent.bytes")
             given = (start % (1 << (8 * n))).to_bytes(n, "big")
             start = int.from_bytes(given, "big")
+    if kind.startswith("2fa"):
+        # a 2fa seed is one of 12 words or of 20 and more (the rule the reader applies too): entropy worth 12 words,
+        # handed over as a number, is what always gives one; other sizes are legitimately refused
+        base = len(wordlist)  # 2048 for most lists, 1626 for the Portuguese one: twelve words in THAT base
+        start = base**11 + (start or 0) % (base**12 - base**11 - (1 << 40))
+        given = start
     with ctx.must_succeed(P, "electrum-generates", "electrum"):
         sentence = electrum.mnemonic_from_entropy(kind, given, lang)
     if start is None:
